@@ -31,6 +31,10 @@ def main():
             reach = reach_mod.Reach(env.PKG)
             reach.start()
         try:
+            if shard.get("_prelude"):
+                from vf import judge  # noqa: PLC0415
+
+                judge.prelude()
             res = mod.run_shard(shard, out_path)
         finally:
             if reach is not None:
